@@ -30,6 +30,7 @@ type Doc struct {
 	Title []string  `json:"title,omitempty"`
 	Num   []float64 `json:"num,omitempty"`
 	Day   int       `json:"day,omitempty"` // days after 2000-01-01; 0 = no date
+	Loc   []float64 `json:"loc,omitempty"` // lon, lat
 }
 
 func (d Doc) tokens(field string) []string {
@@ -123,6 +124,9 @@ func genCorpus(t *rapid.T) Corpus {
 		}
 		if rapid.Bool().Draw(t, "hasDay") {
 			d.Day = rapid.IntRange(1, 3000).Draw(t, "day")
+		}
+		if rapid.IntRange(0, 2).Draw(t, "hasLoc") == 0 {
+			d.Loc = []float64{float64(rapid.IntRange(-20, 20).Draw(t, "lon")) / 2, float64(rapid.IntRange(-20, 20).Draw(t, "lat")) / 2}
 		}
 		c.Docs = append(c.Docs, d)
 	}
@@ -242,6 +246,9 @@ func buildIndex(c Corpus) (*idx, *vlib.Failure) {
 			}
 			if d.Day > 0 {
 				doc.AddField(bluge.NewDateTimeField("day", dayZero.AddDate(0, 0, d.Day)))
+			}
+			if len(d.Loc) == 2 {
+				doc.AddField(bluge.NewGeoPointField("loc", d.Loc[0], d.Loc[1]))
 			}
 			b.Insert(doc)
 			pending++
